@@ -7,7 +7,7 @@
 (* of the database.  Every property formula listed in the cfg is evaluated *)
 (* in every state of every trace.                                          *)
 (***************************************************************************)
-EXTENDS Engine, Json, IOUtils, TLCExt
+EXTENDS EngineProps, Json, IOUtils, TLCExt
 
 Traces == JsonDeserialize(IOEnv.TRACE_FILE)
 
@@ -77,11 +77,28 @@ TraceNext == TCommit \/ TDedup \/ TExec \/ THRet \/ THRaise \/ THFail \/ TNoAck 
 
 TraceSpec == TraceInit /\ [][TraceNext]_tvars
 
-(* acceptance bookkeeping: register 1 = longest matched prefix per trace *)
+(* C06 on the raw audit rows written by the status triggers (sees A->B->C inside one commit) *)
+AuditLegal ==
+  (l > 1 /\ l - 1 <= Len(Events) /\ "audit" \in DOMAIN Events[l - 1]) =>
+     \A i \in DOMAIN Events[l - 1].audit :
+        LET a == Events[l - 1].audit[i] IN
+        CanTransition(a.old, a.new) \/ (lbl.name = "JumpApply" /\ a.new = "NOT_STARTED")
+
+(* Bookkeeping in TLC registers (run with -workers 1):
+     1 = per trace the longest matched prefix (index of the next event to consume)
+     2 = set of <<trace, position, formula>> for every property formula found false; state formulas are
+         recorded with the position of the state (= events consumed + 1), action formulas with the
+         position of the event being consumed.  Evaluation never halts the run, so every trace of the
+         batch is checked to its end and the Python side can match failures against known findings. *)
 ASSUME TLCSet(1, [i \in 1..Len(Traces) |-> 1])
+ASSUME TLCSet(2, {})
+Rec(n) == TLCSet(2, TLCGet(2) \cup {<<tid, l, n>>})
 Progress ==
-  IF l > TLCGet(1)[tid] THEN TLCSet(1, [TLCGet(1) EXCEPT ![tid] = l]) ELSE TRUE
+  /\ IF l > TLCGet(1)[tid] THEN TLCSet(1, [TLCGet(1) EXCEPT ![tid] = l]) ELSE TRUE
+  /\ \A n \in FailedState : Rec(n)
+  /\ ("C06_Legal" \in CheckProps /\ ~AuditLegal) => Rec("C06_AuditLegal")
+CheckActions == \A n \in CheckProps \cap ActionPropNames : (AP(n) \/ Rec(n))
 Accepted ==
   /\ PrintT(<<"PREFIX", TLCGet(1)>>)
-  /\ \A i \in 1..Len(Traces) : TLCGet(1)[i] = Len(Traces[i].events) + 1
+  /\ PrintT(<<"FAILED", TLCGet(2)>>)
 =============================================================================
